@@ -111,7 +111,9 @@ inline std::vector<std::string> split(const std::string& l) {
 // deterministic RNG (splitmix64) so that traces depend only on VERIF_SEED
 struct Rng {
   uint64_t s;
-  explicit Rng(uint64_t seed) : s(seed * 0x9E3779B97F4A7C15ULL + 12345) {}
+  // the seed is hashed so that seeds 1, 2, 3, ... give unrelated streams (not the same stream shifted by one draw)
+  static uint64_t mix(uint64_t z) { z = (z ^ (z >> 30)) * 0xBF58476D1CE4E5B9ULL; z = (z ^ (z >> 27)) * 0x94D049BB133111EBULL; return z ^ (z >> 31); }
+  explicit Rng(uint64_t seed) : s(mix(mix(seed + 0x632BE59BD9B4E019ULL) + 0x9E3779B97F4A7C15ULL)) {}
   uint64_t next() { uint64_t z = (s += 0x9E3779B97F4A7C15ULL);
     z = (z ^ (z >> 30)) * 0xBF58476D1CE4E5B9ULL; z = (z ^ (z >> 27)) * 0x94D049BB133111EBULL;
     return z ^ (z >> 31); }
